@@ -27,7 +27,7 @@ def _urlparse_stub(I, run, args, kwargs, node):
     run.assume_range(port, 0, 65535)
     return new_obj(run, None, "parsed", hostname=Sym("p.hostname", "str"), port=port, path=Sym("p.path", "str"),
                    query=Sym("p.query", "str"), netloc=Sym("p.netloc", "str"), scheme=Sym("p.scheme", "str"),
-                   username=Sym("p.username", "str"), password=Sym("p.password", "str"), params=C(""), fragment=Sym("p.fragment", "str"))
+                   username=Sym("p.username", "str"), password=Sym("p.password", "str"), params=Sym("p.params", "str"), fragment=Sym("p.fragment", "str"))
 
 
 def _tr(run, I, v):
@@ -57,6 +57,7 @@ def r1(ctx):
         port_t = _tr(run, I, Sym("p.port", "int"))
         path_t = _tr(run, I, Sym("p.path", "str"))
         query_t = _tr(run, I, Sym("p.query", "str"))
+        params_t = _tr(run, I, Sym("p.params", "str"))
         if has_colon is False:
             cls = "no-colon"
             ok = o.kind == "raise" and o.exc_class == "builtins.ValueError" and not o.effects
@@ -75,15 +76,19 @@ def r1(ctx):
                 ctx.ob(f"{PU}:no-host", False, "a URL without a host (empty hostname, e.g. 'ws://:8080/x') is accepted instead of refused with ValueError: "
                        f"returns ({h!r}, {p!r}, ...)", loc, {"path": path_text(o)})
             # a fact the code never tested on this path covers both of its values: the result must be right for each
-            subcases = [(pt_, pa_, qu_) for pt_ in ([port_t] if port_t is not None else [True, False])
+            subcases = [(pt_, pa_, qu_, pr_) for pt_ in ([port_t] if port_t is not None else [True, False])
                         for pa_ in ([path_t] if path_t is not None else [True, False])
-                        for qu_ in ([query_t] if query_t is not None else [True, False])]
+                        for qu_ in ([query_t] if query_t is not None else [True, False])
+                        for pr_ in ([params_t] if params_t is not None else [True, False])]
             ok = True
             cls = ""
-            for pt_, pa_, qu_ in subcases:
-                c1 = f"{scheme}:port={'explicit' if pt_ else 'default'}:path={'set' if pa_ else 'empty'}:query={'set' if qu_ else 'none'}"
+            for pt_, pa_, qu_, pr_ in subcases:
+                c1 = f"{scheme}:port={'explicit' if pt_ else 'default'}:path={'set' if pa_ else 'empty'}:query={'set' if qu_ else 'none'}" + (":params=set" if pr_ else "")
                 want_p = Sym("p.port", "int") if pt_ else C(80 if scheme == "ws" else 443)
                 want_r = [Sym("p.path", "str") if pa_ else C("/")]
+                if pr_:
+                    # urlparse splits ';parameters' off the last path segment: they are part of the URL's path
+                    want_r += [C(";"), Sym("p.params", "str")]
                 if qu_:
                     want_r += [C("?"), Sym("p.query", "str")]
                 wr = concat(want_r, "str")
@@ -473,4 +478,73 @@ def r6(ctx):
                loc, {"path": path_text(o)})
     if n < 2:
         raise AnalysisError("direct and proxied resolution not both explored")
+
+
+def _urlparse_const(I, run, args, kwargs, node):
+    """urllib.parse.urlparse on a constant, by the analyser's own standard library (trusted); attribute for attribute."""
+    import urllib.parse as up
+    v = I.resolve(run, args[0])
+    sch = I.resolve(run, kwargs.get("scheme", args[1] if len(args) > 1 else C("")))
+    if not (isinstance(v, C) and isinstance(v.v, str) and isinstance(sch, C)):
+        raise AnalysisError("urlparse model needs a constant url")
+    p = up.urlparse(v.v, scheme=sch.v)
+    try:
+        port = p.port
+    except ValueError:
+        port = None
+    return new_obj(run, None, "parsed", hostname=C(p.hostname), port=C(port), path=C(p.path), query=C(p.query), params=C(p.params),
+                   fragment=C(p.fragment), netloc=C(p.netloc), scheme=C(p.scheme), username=C(p.username), password=C(p.password))
+
+
+def _ref_split(url):
+    """Independent reference (RFC 3986 generic syntax, written by hand): -> (host, port, resource, secure)."""
+    scheme, rest = url.split("://", 1)
+    rest = rest.split("#", 1)[0]
+    before_q, _, query = rest.partition("?")
+    auth, slash, path = before_q.partition("/")
+    path = slash + path
+    auth = auth.rsplit("@", 1)[-1]
+    if auth.startswith("["):
+        host, _, tail = auth[1:].partition("]")
+        port = tail[1:] if tail.startswith(":") else ""
+    else:
+        host, _, port = auth.partition(":")
+    secure = scheme == "wss"
+    return host.lower(), int(port) if port else (443 if secure else 80), (path or "/") + ("?" + query if query else ""), secure
+
+
+@rule("R-C18-7", min_instances=100, title="parse_url folded on a grid of constant URLs (host forms, ports, paths with ';' parameters and escapes, queries, fragments) equals an independent reference split")
+def r7(ctx):
+    idx = ctx.index
+    I = Interp(idx, Config(stubs={"urllib.parse.urlparse": _urlparse_const}))
+    loc = idx.loc(idx.func(PU).node)
+    hosts = ["h.example", "H.Example", "[::1]", "10.0.0.1", "user:pw@h.example"]
+    ports = ["", ":8080", ":80"]
+    paths = ["", "/", "/a/b", "/a;b", "/a;b/c;d=1", "/a%20b", "/;x"]
+    queries = ["", "?q=1", "?q=1;x=2", "?a=b&c=d"]
+    frags = ["", "#f"]
+    n = 0
+    fails = {}
+    import itertools as _it
+    for sch, h, p, pa, q, f in _it.product(("ws", "wss"), hosts, ports, paths, queries, frags):
+        if ctx.tier == "quick" and (f or h in ("H.Example", "user:pw@h.example")) and pa not in ("/a;b", ""):
+            continue
+        url = f"{sch}://{h}{p}{pa}{q}{f}"
+        outs = I.explore(lambda run, url=url: I.call(run, I.make_fn(run, PU), [C(url)], {}, None))
+        ctx.paths += len(outs)
+        n += 1
+        want = _ref_split(url)
+        o = outs[0] if len(outs) == 1 else None
+        if o is None or o.kind != "return" or not isinstance(o.value, Tup) or not all(isinstance(x, C) for x in o.value.items):
+            raise AnalysisError(f"parse_url({url!r}) does not fold to one constant result: {[(x.kind, x.exc_class or x.value) for x in outs][:2]}")
+        got = tuple(x.v for x in o.value.items)
+        if got != want:
+            part = ["host", "port", "resource", "tls"][next(i for i in range(4) if got[i] != want[i])]
+            fails.setdefault(part, (url, got, want))
+    for part in ("host", "port", "resource", "tls"):
+        f = fails.get(part)
+        ctx.ob(f"{PU}:grid:{part}", f is None, f"{n} URLs agree with the reference" if f is None else
+               f"parse_url({f[0]!r}) = {f[1]!r}; the URL's own components are {f[2]!r}", loc, {"url": f[0]} if f else None)
+    for i in range(min(n, 120)):
+        ctx.ob(f"{PU}:url#{i}", True, "URL decided", loc)
 
